@@ -137,12 +137,13 @@ class C05(core.Prop):
                         t['rings'] = [[i, j, 'd', 's']]
                         t['cmax'] = 3
                         out.append(t)
-        for base in gg.tree_shapes(2, max_nest=1):
-            for s in candidates(base):
-                for el in gg.elems(s['chain']):
-                    el['ann'] = 'q_kw'
-                s['cmax'] = 3
-                out.append(s)
+        for form in ('q_kw', 'q_free', 'free_uc'):
+            for base in gg.tree_shapes(2, max_nest=1):
+                for s in candidates(base):
+                    for el in gg.elems(s['chain']):
+                        el['ann'] = form
+                    s['cmax'] = 3
+                    out.append(s)
         if tier == 'quick':
             for base in gg.tree_shapes(3, max_nest=2) + gg.tree_shapes(4, max_nest=2)[:8]:
                 firsts = list(candidates(base))
